@@ -162,6 +162,18 @@ func (w *World) loadContracts() error {
 			w.declClass("ghost:"+g.Name, "(Array Int "+g.Sort+")")
 		}
 	}
+	// string library functions usable in specifications (the same uninterpreted symbols the executor uses)
+	for _, uf := range []struct {
+		name  string
+		sorts []string
+	}{{"uf_ReplaceAll", []string{"String", "String", "String"}}, {"uf_ToLower", []string{"String"}}, {"uf_ToUpper", []string{"String"}}} {
+		w.declUF(uf.name, "(declare-fun "+uf.name+" ("+strings.Join(uf.sorts, " ")+") String)")
+		var ps []string
+		for i := range uf.sorts {
+			ps = append(ps, fmt.Sprintf("a%d", i))
+		}
+		w.specFuns[uf.name] = &PredDef{Name: uf.name, Params: ps, Sorts: uf.sorts, Ret: "String", Uninterp: true}
+	}
 	return w.buildSpecPrelude()
 }
 
@@ -593,11 +605,11 @@ func (w *World) prelude() string {
 	b.WriteString("(set-option :produce-models true)\n(set-logic ALL)\n")
 	b.WriteString("(declare-datatypes ((Iface 0)) (((mk-iface (itag Int) (iref Int)))))\n")
 	b.WriteString("(declare-datatypes ((Slice 0)) (((mk-slice (sarr Int) (soff Int) (slen Int) (scap Int)))))\n")
-	b.WriteString(w.specPrelude)
 	for _, n := range w.ufOrder {
 		b.WriteString(w.ufs[n])
 		b.WriteString("\n")
 	}
+	b.WriteString(w.specPrelude)
 	for _, ax := range w.cs.Axioms {
 		env := &specEnv{w: w, pkg: ax.Pkg, vars: map[string]Val{}, pure: true}
 		v, err := env.evalSafe(ax.E)
